@@ -87,6 +87,8 @@ def check_history(run):
                 out.append(V("C06", "task_before_call", "broadcast %d index %d began before the broadcast was issued" % (b, idx), [c, be]))
             if not (en.seq < r.seq):
                 out.append(V("C06", "return_before_all_done", "broadcast %d returned before the call for index %d finished" % (b, idx), [en, r]))
+                # C07's wake-up clause read from the other side: the caller resumes after the LAST worker has finished, not before
+                out.append(V("C07", "resumed_before_last_worker", "broadcast %d: the caller resumed while the call for index %d was still running" % (b, idx), [en, r]))
             if be.tid != en.tid:
                 out.append(V("C06", "task_migrated", "broadcast %d index %d began and ended on different threads" % (b, idx), [be, en]))
             if idx == 0:
